@@ -68,7 +68,9 @@ impl<'a> View<'a> {
             }
         }
         let tx_frames = out.obs.tx.iter().map(|p| wire::parse_frames(&p.payload).map(|x| x.0)).collect();
-        let rx_frames = out.obs.rx.iter().map(|p| wire::parse_frames(&p.payload).map(|x| x.0)).collect();
+        // (lenient: a byzantine frame with an impossible offset must not hide the honest frames
+        // that share its packet)
+        let rx_frames = out.obs.rx.iter().map(|p| wire::parse_frames_opts(&p.payload, false).map(|x| x.0)).collect();
         let mut tp_at_client = vec![None; n];
         let mut tp_at_server = vec![None; n];
         for (role, nonce, bytes) in &out.tls.tp_received {
@@ -387,20 +389,31 @@ pub fn idle_deadline_ns(v: &View, idx: u32, role: Role) -> Option<u64> {
         (0, x) | (x, 0) => x,
         (a, b) => a.min(b),
     };
-    let last_rx = o.obs.rx.iter().filter(|r| r.ep == side.ep && r.conn == side.conn).map(|r| r.t_ns).max()?;
+    // (ordered by the global sequence number, not by time: several packets are processed and
+    // sent within one instant)
+    let last = o.obs.rx.iter().filter(|r| r.ep == side.ep && r.conn == side.conn).max_by_key(|r| r.seq)?;
+    let (last_rx, last_seq) = (last.t_ns, last.seq);
     // first ack-eliciting transmission after the last processed packet
-    let first_tx_after = o
+    let first_tx_after_seq = o
         .obs
         .tx
         .iter()
         .enumerate()
-        .filter(|(_, t)| t.ep == side.ep && t.conn == side.conn && t.t_ns >= last_rx)
+        .filter(|(_, t)| t.ep == side.ep && t.conn == side.conn && t.seq > last_seq)
         .filter(|(i, _)| v.tx_frames[*i].as_ref().map_or(true, |f| f.iter().any(|f| !matches!(f, Frame::Ack { .. } | Frame::Padding { .. } | Frame::ConnectionClose { .. }))))
-        .map(|(_, t)| t.t_ns)
+        .map(|(_, t)| t.seq)
         .min()
-        .unwrap_or(last_rx);
+        .unwrap_or(last_seq);
     let mut deadline = last_rx + idle_ms * 1_000_000;
-    for e in o.obs.evs.iter().filter(|e| e.ep == side.ep && e.conn == side.conn && e.t_ns >= last_rx && e.t_ns <= first_tx_after) {
+    // the metrics event that follows the transmission belongs to it as well
+    let mut after = 0;
+    for e in o.obs.evs.iter().filter(|e| e.ep == side.ep && e.conn == side.conn && e.seq >= last_seq) {
+        if e.seq > first_tx_after_seq {
+            after += 1;
+            if after > 3 {
+                break;
+            }
+        }
         if let Ev::Metrics { smoothed_us, var_us, max_ack_delay_us, pto_count, .. } = &e.ev {
             let base = smoothed_us + (4 * var_us).max(1000) + max_ack_delay_us;
             let pto_us = base.saturating_mul(1u64 << (*pto_count).min(40));
@@ -507,6 +520,19 @@ pub fn c02(v: &View) -> Vec<Violation> {
             continue;
         }
         if !(fam.starts_with("c02.finite") || fam.starts_with("c02.block") || fam.starts_with("c02.partial_reads") || fam.starts_with("c01")) {
+            continue;
+        }
+        // an application that drops its connection handle (CloseSpec::DropHandles) puts the
+        // connection into the flushing state: streams the peer opens afterwards are refused and
+        // the connection ends with a plain `Closed`. That is the application's decision, not a
+        // transport failure (e.g. the peer's first stream frames were delayed by a fault).
+        if matches!(c.close, CloseSpec::DropHandles)
+            && [v.side(idx, Role::Client), v.side(idx, Role::Server)]
+                .iter()
+                .flatten()
+                .filter_map(|s| v.closed_event(*s))
+                .any(|(_, k, _, e)| k == CloseKind::Closed && e.contains("initiator: Local"))
+        {
             continue;
         }
         if !o.app.capped_tasks.is_empty() || o.panic.is_some() {
